@@ -5,6 +5,7 @@ G2  defined before use: register operands are looked up in the set-bitmap and th
     SSA operands are compared with the running wire index
 G3  eval (and Evaluator::run) compare party count and per-party bit counts before indexing the inputs
 G4  sibling consistency: every comparison of a circuit field against the same bound uses the same comparator
+G6  eval's storage is allocated with exactly the size validation bounds indices by (max_reg_count; inputs + gates)
 G5  no index position (or slice bound) into circuit-sized storage in eval is computed from the supplied inputs
 """
 from .. import mir, protocol
@@ -309,6 +310,46 @@ def rule_g5(ctx):
     return res
 
 
+def rule_g6(ctx):
+    """The storage eval indexes is as large as the bound validate checks indices against."""
+    res = RuleResult("G6", "eval allocates its register / wire storage with exactly the size validation bounds the indices by")
+    # register circuit: regs = vec![false; self.max_reg_count]
+    for ev, want, label in (("register_circuit::Circuit::eval", {"max_reg_count"}, "register file"),
+                            ("circuit::Circuit::eval", {"gates", "input_gates"}, "wire values")):
+        body = ctx.body(ev)
+        allocs = []
+        for b, t in body.calls():
+            if mir.last_seg(mir.callee(t) or "") == "from_elem" and not body.blocks[b]["cleanup"]:
+                # is this vector indexed with circuit fields?
+                root = ("call", b, mir.callee(t))
+                used = any(t2["func"].get("declared") in INDEX_CALLS and any(r == root for (r, p) in body.trace_operand(t2["args"][0])) for _, t2 in body.calls())
+                if used:
+                    allocs.append((b, t))
+        if len(allocs) != 1:
+            raise AnchorMissing("G6: expected one indexed storage vector in %s, found %d" % (ev, len(allocs)))
+        b, t = allocs[0]
+        direct = body.trace_operand(t["args"][1])
+        deep = set(body.deep_sources(t["args"][1], 5))
+        # loop-carried sums (`input_len += p`): add what is accumulated
+        for (r, p) in list(deep):
+            if r[0] == "rv" and r[1] == "binop":
+                rv = body.blocks[r[2]]["stmts"][r[3]]["rv"]
+                for o in (rv.get("l"), rv.get("r")):
+                    l = mir.base_local(body, o) if isinstance(o, dict) else None
+                    if l is not None:
+                        for (ab, other) in mir.add_defs(body, l):
+                            deep |= set(body.deep_sources(other, 4))
+        fields = {p[0] for (r, p) in deep if r == SELF1 and p}
+        calls = {mir.last_seg(r[2] or "") for (r, p) in deep if r[0] == "call"} - {"len", "iter", "into_iter", "next", "deref"}
+        if fields == want and not calls and (len(want) > 1 or all(r == SELF1 and tuple(p) == ("max_reg_count",) for (r, p) in direct)):
+            res.ok({"evaluator": ev, "storage": label, "verdict": "length = %s" % " + ".join(sorted(want))})
+        else:
+            res.bad(Finding("G6", ev, "%s is not sized by %s" % (label, " + ".join(sorted(want))),
+                            "validation bounds every index by %s; eval allocates the storage from %s%s, so a validated index can lie outside it" % (
+                                " + ".join(sorted(want)), sorted(fields), (" through " + ", ".join(sorted(calls))) if calls else ""), t["sp"]))
+    return res
+
+
 def rule_g2(ctx):
     res = RuleResult("G2", "defined before use: register operands looked up in the written-set before the destination is marked; SSA operands compared with the running index")
     va = "register_circuit::Circuit::validate"
@@ -499,4 +540,4 @@ def rule_g4(ctx):
 
 
 def run(ctx):
-    return ctx.run_rules([rule_g1, rule_g2, rule_g3, rule_g4, rule_g5])
+    return ctx.run_rules([rule_g1, rule_g2, rule_g3, rule_g4, rule_g5, rule_g6])
